@@ -119,6 +119,25 @@ impl Gen {
     }
 }
 
+use rink_core::ast::Function;
+const DIRECT_FUNCS: [Function; 20] = [
+    Function::Sqrt, Function::Exp, Function::Ln, Function::Log2, Function::Log10, Function::Sin, Function::Cos, Function::Tan, Function::Asin, Function::Acos,
+    Function::Atan, Function::Sinh, Function::Cosh, Function::Tanh, Function::Asinh, Function::Acosh, Function::Atanh, Function::Log, Function::Hypot, Function::Atan2,
+];
+
+fn direct_tree(i: u64) -> Expr {
+    let f = DIRECT_FUNCS[(i / 5) as usize];
+    let call = Expr::new_call(f, vec![]);
+    let a = Expr::new_unit("a".to_string());
+    match i % 5 {
+        0 => call,
+        1 => Expr::new_add(a, call),
+        2 => Expr::new_pow(call, Expr::new_unit("b".to_string())),
+        3 => Expr::new_call(Function::Hypot, vec![call, a]),
+        _ => Expr::new_mul(vec![a, call]),
+    }
+}
+
 pub struct C11 {
     gens: Vec<(Gen, usize)>,
     gen_total: u64,
@@ -326,7 +345,7 @@ impl Space for C11 {
         Meta {
             id: "C11",
             level: "exploration",
-            rule: "every expression tree with <= 2 operator nodes over 6 leaves (thorough: also <= 3 nodes over 2 leaves) and 22 constructors (11 binary operators, explicit *, |, juxtaposition of 2 and 3, unary + and -, two temperature suffixes, `of`, calls with 0/1/2 arguments) in every operand position; each tree is written fully parenthesised and parsed by rink, giving e0; then Display(e0), the serde form of ExprString, and the ExprReply parts (joined by single spaces) must each parse back to e0 with the whole text consumed. Second source: every expression of every entry of definitions.units and currency.units as produced by the definitions parser, also through serde_json for the whole DefEntry. Non-trivial = not excluded (inexact numerals, names that are not plain identifiers, error nodes); distinct by Debug form of e0".into(),
+            rule: "every expression tree with <= 2 operator nodes over 6 leaves (thorough: also <= 3 nodes over 2 leaves) and 22 constructors (11 binary operators, explicit *, |, juxtaposition of 2 and 3, unary + and -, two temperature suffixes, `of`, calls with 0/1/2 arguments) in every operand position; each tree is written fully parenthesised and parsed by rink, giving e0; then Display(e0), the serde form of ExprString, and the ExprReply parts (joined by single spaces) must each parse back to e0 with the whole text consumed. A generated text that parses to an error node is a violation. Third source: calls without arguments of all 20 functions built directly from the AST constructors, alone and in 4 operand positions. Second source: every expression of every entry of definitions.units and currency.units as produced by the definitions parser, also through serde_json for the whole DefEntry. Non-trivial = not excluded (inexact numerals, names that are not plain identifiers, error nodes); distinct by Debug form of e0".into(),
             assumptions: vec![
                 "ExprReply parts are rendered by joining them with single spaces".into(),
                 "trees whose constants print inexactly (recurring/approx.) or whose names are not plain identifiers of the query language are outside the statement and are skipped and counted".into(),
@@ -336,9 +355,12 @@ impl Space for C11 {
         }
     }
     fn len(&self) -> u64 {
-        self.gen_total + self.ndefs
+        self.gen_total + self.ndefs + DIRECT_FUNCS.len() as u64 * 5
     }
     fn describe(&self, idx: u64) -> String {
+        if idx >= self.gen_total + self.ndefs {
+            return format!("directly constructed tree: {}", direct_tree(idx - self.gen_total - self.ndefs));
+        }
         if idx < self.gen_total {
             self.gen_text(idx)
         } else {
@@ -349,6 +371,22 @@ impl Space for C11 {
         4000
     }
     fn run(&mut self, idx: u64) -> CaseOut {
+        if idx >= self.gen_total + self.ndefs {
+            // trees built from the AST constructors, not through the parser: calls without arguments
+            // of every function, alone and as operands (what `sin()` parses to on a correct parser)
+            let e0 = direct_tree(idx - self.gen_total - self.ndefs);
+            let mut out = CaseOut::ok("directly constructed tree").key(hash64(&format!("{:?}", e0)));
+            for (s, d) in check_expr(&e0, &e0.to_string()) {
+                out = out.viol(s, d);
+            }
+            let ser: Result<String, _> = serde_json::to_string(&ExprString(e0.clone()));
+            match ser.ok().and_then(|s| serde_json::from_str::<ExprString>(&s).ok()) {
+                Some(back) if back.0 == e0 => {}
+                Some(back) => out = out.viol("ExprString does not survive serde", format!("`{}` came back as `{}`", e0, back.0)),
+                None => out = out.viol("ExprString fails to deserialise", format!("`{}`", e0)),
+            }
+            return out;
+        }
         if idx < self.gen_total {
             let text = self.gen_text(idx);
             let e0 = match parse_all(&text) {
@@ -356,7 +394,12 @@ impl Space for C11 {
                 None => return CaseOut::ok("generator text not consumed").viol("generator", format!("`{}` not consumed", text)),
             };
             if has_error(&e0) {
-                return CaseOut::ok("parser produced an error node (not a tree of the quantifier)");
+                // every generated text is the fully parenthesised written form of a tree made of valid
+                // constructors only (it is also what Display prints for that tree): it must parse
+                return CaseOut::ok("parser produced an error node").viol(
+                    "a fully parenthesised tree of valid constructors does not parse",
+                    format!("`{}` parsed to `{}`", text, e0),
+                );
             }
             if let Some(why) = excluded(&e0) {
                 return CaseOut::ok(format!("excluded: {}", why));
